@@ -180,7 +180,7 @@ def _tomat(rows):
 
 def oracle_tree(c, o):
     if 'raises' in o:
-        return f'a well-typed operator expression raised {o["raises"]}: {o.get("msg")}'
+        return f'a well-typed operator expression raised {o["raises"]}: {o.get("msg")}', {'raises': o['raises']}
     F, G = _tomat(o['F']), _tomat(o['G'])
     ref = _np_tree(c['tree'])
     if F.shape != ref.shape or not np.array_equal(F, ref):
@@ -230,7 +230,7 @@ def coq_tree(c):
 
 def cmp_tree(c, o, m):
     if 'raises' in o:
-        return f'impl raises {o["raises"]}: {o.get("msg")}'
+        return f'impl raises {o["raises"]}: {o.get("msg")}', {'raises': o['raises']}
     mf, ma = m
     F, G = _tomat(o['F']), _tomat(o['G'])
     MF = _tomat(mf).T if len(mf) else np.zeros(F.shape)
@@ -242,36 +242,44 @@ def cmp_tree(c, o, m):
     return None
 
 
-def _zero_built(t):
+def _scalarish(t):
+    """the built operator returns the shapeless scalar 0 of ZeroOp() (possibly scaled), whatever its input"""
     k = t['t']
     if k == 'zero':
         return True
-    if k in ('mulr', 'mull'):
-        return (t['s']['k'] == 'py' and t['s']['v'][0] == [0, 0]) or (t['s']['k'] == 'py' and t['s']['v'][0] == [1, 0] and _zero_built(t['a']))
-    if k == 'add':
-        return _zero_built(t['a']) and _zero_built(t['b'])
-    if k == 'comp':
-        return (t['b']['t'] == 'id' and _zero_built(t['a'])) or (t['a']['t'] == 'id' and _zero_built(t['b']))
-    if k == 'h':
+    if k in ('leaf', 'id'):
         return False
-    return False
+    if k in ('mulr', 'mull'):
+        if t['s']['k'] == 'py' and t['s']['v'][0] == [0, 0]:
+            return True  # python scalar 0 -> ZeroOp()
+        return _scalarish(t['a'])
+    if k == 'add':
+        return _scalarish(t['a']) and _scalarish(t['b'])
+    if k == 'comp':
+        if t['b']['t'] == 'id':
+            return _scalarish(t['a'])
+        if t['a']['t'] == 'id':
+            return _scalarish(t['b'])
+        return _scalarish(t['a'])
+    if k == 'h':
+        return _scalarish(t['a'])
+    return _scalarish(t['a'])  # gram
 
 
 def _zero_in_comp(t):
-    """a ZeroOp() (scalar result) that is fed to, or fed by, another operator: known finding KF-03"""
+    """a ZeroOp() result (shapeless scalar) is fed to, or back-propagated through, an operator that needs a shaped
+    tensor: known finding KF-03"""
     k = t['t']
     kids = [t[x] for x in ('a', 'b') if x in t]
-    if k in ('comp',) and (_zero_built(t['a']) or _zero_built(t['b'])) and not (t['a']['t'] == 'id' or t['b']['t'] == 'id'):
+    if k == 'comp' and t['a']['t'] != 'id' and t['b']['t'] != 'id' and (_scalarish(t['a']) != _scalarish(t['b'])):
         return True
-    if k in ('mulr', 'mull', 'h', 'gram') and _zero_built(t['a']) and not (k in ('mulr', 'mull') and t['s']['k'] == 'py'):
-        return True
-    if k == 'gram' and _contains_zero(t['a']):
+    if k == 'gram' and _contains_zero(t['a']) and not _scalarish(t['a']):
         return True
     return any(_zero_in_comp(x) for x in kids)
 
 
 def _contains_zero(t):
-    return _zero_built(t) or any(_contains_zero(t[x]) for x in ('a', 'b') if x in t)
+    return _scalarish(t) or any(_contains_zero(t[x]) for x in ('a', 'b') if x in t)
 
 
 def descr_tree(c):
